@@ -573,7 +573,7 @@ func st4Reference(vals []st4Val) *st4Ref {
 			ref.strs = append(ref.strs, v.s)
 		}
 	}
-	if ref.anyFloat && maxAbsInt.BitLen() > 40 {
+	if (ref.anyFloat || ref.hasNoDigit || ref.hasNanInf || ref.hasHexUnd) && maxAbsInt.BitLen() > 40 {
 		ref.exact = false
 		if maxAbsInt.BitLen() > 53 {
 			ref.bigMixed = true
@@ -583,6 +583,12 @@ func st4Reference(vals []st4Val) *st4Ref {
 		ref.exact = false
 	}
 	return ref
+}
+
+// the arithmetic of every path is exact on this input: integers only (no string that some path reads as a float),
+// or the small dyadic class
+func (r *st4Ref) exactArith() bool {
+	return r.exact || !(r.anyFloat || r.hasNoDigit || r.hasNanInf || r.hasHexUnd)
 }
 
 func (r *st4Ref) sum() *big.Rat {
@@ -726,7 +732,7 @@ func st4CheckSeg(site string, ref *st4Ref, der map[string]sutils.CValueEnclosure
 		switch {
 		case !ok || st4CVRat(got) == nil:
 			fail("sum", fmt.Sprintf("sum missing (%s) although %d numeric values exist (Σ=%s)", st4CVOr(der, "sum"), len(ref.nums), want.RatString()))
-		case !st4Close(st4CVRat(got), want, ref.exact || !ref.anyFloat, sc):
+		case !st4Close(st4CVRat(got), want, ref.exactArith(), sc):
 			fail("sum", fmt.Sprintf("sum=%s, Σ=%s", st4CV(got), want.RatString()))
 		}
 		avgWant := new(big.Rat).Quo(want, new(big.Rat).SetInt64(int64(len(ref.nums))))
@@ -750,7 +756,7 @@ func st4CheckSeg(site string, ref *st4Ref, der map[string]sutils.CValueEnclosure
 		}
 		rw := new(big.Rat).Sub(ref.minmax(false), ref.minmax(true))
 		g, ok := der["range"]
-		if !ok || st4CVRat(g) == nil || !st4Close(st4CVRat(g), rw, ref.exact || !ref.anyFloat, sc) {
+		if !ok || st4CVRat(g) == nil || !st4Close(st4CVRat(g), rw, ref.exactArith(), sc) {
 			fail("range", fmt.Sprintf("range=%s, max-min=%s", st4CVOr(der, "range"), rw.RatString()))
 		}
 	} else {
@@ -810,7 +816,7 @@ func st4CheckRB(site string, ref *st4Ref, n uint64, der map[string]sutils.CValue
 		switch {
 		case !ok || st4CVRat(got) == nil:
 			fail("sum", fmt.Sprintf("sum missing (%s), Σ=%s", st4CVOr(der, "sum"), want.RatString()))
-		case !st4Close(st4CVRat(got), want, ref.exact || !ref.anyFloat, sc):
+		case !st4Close(st4CVRat(got), want, ref.exactArith(), sc):
 			fail("sum", fmt.Sprintf("sum=%s, Σ=%s", st4CV(got), want.RatString()))
 		}
 		avgWant := new(big.Rat).Quo(want, new(big.Rat).SetInt64(int64(len(ref.nums))))
@@ -876,7 +882,7 @@ func st4Tags(ref *st4Ref, extra ...string) []string {
 	for c := range ref.classes {
 		t = append(t, "in:"+c)
 	}
-	if ref.exact || !ref.anyFloat {
+	if ref.exactArith() {
 		t = append(t, "arith:exact")
 	} else {
 		t = append(t, "arith:rounding")
@@ -917,7 +923,7 @@ func st4FastParse(s []byte) (struct{}, bool) {
 // ingest-time statistics must equal query-time statistics on the same values (the .sst fast path and the raw
 // recomputation answer the same query)
 func st4IngestVsQuery(ref *st4Ref, dq, di string) []PropFail {
-	if dq == di || !(ref.exact || !ref.anyFloat) {
+	if dq == di || !ref.exactArith() {
 		return nil
 	}
 	sig := "stats/ingest-vs-query/unexplained"
@@ -1040,7 +1046,7 @@ func st4Exec(line string) Result {
 		res.Fails = append(res.Fails, st4CheckSeg(site, ref, der, cands)...)
 		// segmentation independence: merge of the folds of ANY split = fold of the whole list (same adders)
 		dw, _ := st4Derive(fold(whole))
-		if dw != d && (ref.exact || !ref.anyFloat) && ref.absInts.Cmp(st4Two63) < 0 {
+		if dw != d && ref.exactArith() && ref.absInts.Cmp(st4Two63) < 0 {
 			res.Fails = append(res.Fails, PropFail{Sig: st4Sig(site, "split", cands),
 				Msg: fmt.Sprintf("%s: split %s merged in order %s gives {%s}, the unsplit list gives {%s}", site, f[4], f[3], d, dw)})
 		}
@@ -1078,7 +1084,7 @@ func st4Exec(line string) Result {
 		cands := st4CandsRB(ref)
 		res.Fails = append(res.Fails, st4CheckRB("rbmerge", ref, n, der, cands)...)
 		ow, _, _ := st4FoldRB(whole).result()
-		if ow != out && (ref.exact || !ref.anyFloat) && ref.absInts.Cmp(st4Two63) < 0 {
+		if ow != out && ref.exactArith() && ref.absInts.Cmp(st4Two63) < 0 {
 			res.Fails = append(res.Fails, PropFail{Sig: st4Sig("rbmerge", "split", cands),
 				Msg: fmt.Sprintf("rbmerge: split %s merged in order %s gives {%s}, the unsplit list gives {%s}", f[3], f[2], out, ow)})
 		}
